@@ -55,6 +55,8 @@ def realise(v):
         return tuple(realise(x) for x in v)
     if isinstance(v, dict):
         return {k: realise(x) for k, x in v.items()}
+    if isinstance(v, (set, frozenset)):
+        return type(v)(v)
     return v
 
 
